@@ -105,6 +105,16 @@ CHECKS = {
             'Trusted: refgroup() in vf/props/c16.py. Known finding F15 (First below a key level) is isolated in its own '
             'sub-check and recognised by an emulation-based classifier. Bounds: <= 8 items, <= 3 key levels.',
             'DESIGN.md section 4 / C16'),
+    'C17': ('Hypothesis-generated, type-tracked stage sequences over finite and endless instrumented sources vs the same '
+            'stages written as independent generator functions; source pull counts decide laziness; builder histories '
+            '(prefix re-used after being extended) for Iter and Invoke',
+            'Generated-input differential testing: the first k outputs are equal, the number of items pulled from the source '
+            'stays within the reference plus a per-stage look-ahead allowance (endless sources with a pull budget make '
+            'eagerness a deterministic failure), first()/all() terminate as documented, every spec is evaluated twice, '
+            'and deriving specs from a base never changes the base (repr, stage list, behaviour) or its siblings.',
+            'Trusted: refpipe() and the reference stages in vf/props/c17.py (own chunked/windowed/split/unique, not boltons). '
+            'Bounds: <= 4 stages (+3 in builder histories), parameters <= 7, k <= 10 outputs, pull budget 3000.',
+            'DESIGN.md section 4 / C17'),
 }
 
 NOT_YET = 'check not built yet in this session (design in DESIGN.md section 4); will be claimed once its check is quiet on the unchanged tree'
